@@ -1315,7 +1315,7 @@ def qname_value_cases(run: Run, impl: Impl) -> None:
     unprefixed name in the default element/type namespace), through the constructor function, `cast as`, the accessor
     functions and `eq fn:QName(uri, lexical)`."""
     rng, st = run.rng, run.stats
-    n = run.scale(60, 600)
+    n = run.scale(35, 600)
     fixed = ['a', 'p:a', 'q:b', 'xs:integer', 'fn:abs', 'xml:lang', 'zz9:a', ' a ', ' p:a', 'p:a ', '\n p:a\t', 'P:a', 'p:1a', '1:a',
              ':a', 'a:', 'p:q:a', '', ' ', 'p: a', 'xsi:type', "o'k", 'p:\u00e9', '\u00e9']
     lines, cases = [], []
@@ -1363,10 +1363,11 @@ def qname_value_cases(run: Run, impl: Impl) -> None:
                 # interim finding F10m (repair on fix-c10-6): the prefix is looked up before the white space is removed
                 stripped = s.strip(' \t\n\r')
                 tags = ['F10m'] if (s[:1] in (' ', '\t', '\n', '\r') and ':' in stripped and got == 'ERR:K') else []
-                if got != mm:
-                    run.disagree(Disagreement(dict(case, path=fname, expr=expr), impl=got, model=mm, what='qname-value-model',
-                                              site='qname.py AbstractQName.make', tags=tags))
                 want = got if (sp == 'ERR' and got.startswith('ERR')) else sp
+                if got != mm and not tags:
+                    # (under the interim finding the model is the repaired code: the deviation is reported once, as a violation)
+                    run.disagree(Disagreement(dict(case, path=fname, expr=expr), impl=got, model=mm, what='qname-value-model',
+                                              site='qname.py AbstractQName.make'))
                 if got != want:
                     run.disagree(Disagreement(dict(case, path=fname, expr=expr), impl=got, model=mm, spec=sp,
                                               what='qname-value-vs-static-context', site='qname.py AbstractQName.make', tags=tags))
